@@ -46,11 +46,93 @@ def find_structure(ir_function):
     cfg, block_map = ir_function_to_graph(ir_function)
     sd = StructureDetector()
     shape = sd.detect(cfg)
+    if not check_shape(cfg, shape):
+        raise ValueError(
+            f"Cannot structure the control flow of {ir_function.name}"
+        )
     rmap = {c: b for b, c in block_map.items()}
     # print()
     # print_shape(shape)
     # print()
     return shape, rmap
+
+
+_BAD = object()  # Unknown / invalid jump target
+
+
+def shape_entry(shape, follow, loops):
+    """Determine the node which is executed first by a shape.
+
+    Args:
+        shape: the shape
+        follow: the node that is executed when the shape falls through
+        loops: list of (header, follow) of the enclosing loops, innermost
+            first. A header is _BAD while it is being determined.
+    """
+    if shape is None:
+        return follow
+    elif isinstance(shape, (BasicShape, IfShape)):
+        return shape.content
+    elif isinstance(shape, SequenceShape):
+        for sub_shape in reversed(shape.shapes):
+            follow = shape_entry(sub_shape, follow, loops)
+        return follow
+    elif isinstance(shape, LoopShape):
+        return shape_entry(shape.body, follow, [(_BAD, follow)] + loops)
+    elif isinstance(shape, BreakShape):
+        return loops[shape.level][1] if shape.level < len(loops) else _BAD
+    elif isinstance(shape, ContinueShape):
+        return loops[shape.level][0] if shape.level < len(loops) else _BAD
+    else:  # pragma: no cover
+        raise NotImplementedError(str(shape))
+
+
+def check_shape(cfg, shape):
+    """Check that a shape is a proper structuring of a control flow graph.
+
+    Structured execution of the shape must visit the same nodes as
+    a walk over the control flow graph from the entry node: every node in
+    the shape must be left, by falling through, by break or by continue,
+    towards its successor(s) in the graph.
+    """
+    if shape_entry(shape, cfg.exit_node, []) is not cfg.entry_node:
+        return False
+    return _check_shape(cfg, shape, cfg.exit_node, [])
+
+
+def _check_shape(cfg, shape, follow, loops):
+    if shape is None or isinstance(shape, (BreakShape, ContinueShape)):
+        return True
+    elif isinstance(shape, BasicShape):
+        successors = list(shape.content.successors)
+        if successors == [cfg.exit_node]:
+            return True  # return from function
+        return len(successors) == 1 and follow is successors[0]
+    elif isinstance(shape, IfShape):
+        node = shape.content
+        if len(node.successors) != 2:
+            return False
+        return (
+            shape_entry(shape.yes_shape, follow, loops) is node.yes
+            and shape_entry(shape.no_shape, follow, loops) is node.no
+            and _check_shape(cfg, shape.yes_shape, follow, loops)
+            and _check_shape(cfg, shape.no_shape, follow, loops)
+        )
+    elif isinstance(shape, SequenceShape):
+        for sub_shape in reversed(shape.shapes):
+            if not _check_shape(cfg, sub_shape, follow, loops):
+                return False
+            follow = shape_entry(sub_shape, follow, loops)
+        return True
+    elif isinstance(shape, LoopShape):
+        header = shape_entry(shape.body, follow, [(_BAD, follow)] + loops)
+        if header is _BAD or header is cfg.exit_node:
+            return False
+        return _check_shape(
+            cfg, shape.body, follow, [(header, follow)] + loops
+        )
+    else:  # pragma: no cover
+        raise NotImplementedError(str(shape))
 
 
 def print_shape(shape, indent=0, file=None):
